@@ -17,7 +17,8 @@ Words == {"cat", "grep", "tail", "map", ".ack", "health", "unknown", ""}
 Opts == {"none", "empty", "valid", "context", "noeq", "nonint", "b64good", "b64bad", "b64bare", "negbefore", "hugebefore"}   \* b64bare: the value is the marker "base64" alone
 Regexes == {"none", "default", "invert", "noop", "wrongprefix", "uncompilable", "noflag", "bogusflag",
             "flaglist_in", "flaglist_dn", "flaglist_ni", "flaglist_bdn"}   \* flag lists: invert,noop / default,noop / noop,invert / bogus,default,noop
-Queries == {"valid", "empty", "blank", "lonebackquote", "unknownkeyword", "truncated", "badlogformat", "unknownagg"}
+Queries == {"valid", "empty", "blank", "lonebackquote", "unknownkeyword", "truncated", "badlogformat", "unknownagg",
+            "orderkeyword1", "orderkeyword2", "orderkeyword3", "clausekeyword"}   \* a clause keyword directly followed by another keyword
 \* queries the parser accepts whose numbers sit on a boundary (they reach timers, limits and slices in the aggregator)
 BoundaryQueries == {"quotedbackquote", "quotedkeyword", "interval0", "intervalneg", "intervalhuge", "limit0", "limitneg", "rorderlimit1", "setclause", "manyselect"}
 Files == {"existing", "missing", "directory", "emptyglob"}
